@@ -8,6 +8,7 @@ import (
 	"fmt"
 	"io"
 	"net"
+	"strings"
 	"time"
 
 	"github.com/Tnze/go-mc/chat/sign"
@@ -202,6 +203,7 @@ func short(s string) string {
 
 type wcase struct {
 	name string
+	note string
 	run  func(w io.Writer) error
 }
 
@@ -209,7 +211,10 @@ func checkWrite(c *vm.Ctx, r *vm.Rand, wc *wcase) {
 	var full bytes.Buffer
 	var err error
 	wit := func(extra map[string]any) any {
-		m := map[string]any{"operation": wc.name, "total_bytes": full.Len()}
+		m := map[string]any{"operation": wc.name, "total_bytes": full.Len(), "healthy_output": vm.Hex(full.Bytes()[:min(full.Len(), 200)])}
+		if wc.note != "" {
+			m["fields"] = wc.note
+		}
 		for k, v := range extra {
 			m[k] = v
 		}
@@ -420,6 +425,42 @@ func genCases(c *vm.Ctx, r *vm.Rand, g *nbtgen.G) ([]*rcase, []*wcase) {
 			return err
 		}},
 	)
+	// every field encoder on its own and in a random tuple, with empty values likely: an encoder that writes a
+	// length prefix and then an empty payload must still report the failure of the prefix write
+	small := func() int {
+		if r.Intn(3) == 0 {
+			return 0
+		}
+		return r.Intn(6)
+	}
+	menu := []struct {
+		name string
+		f    pk.FieldEncoder
+	}{
+		{"Boolean", pk.Boolean(r.Bool())}, {"Byte", pk.Byte(r.Intn(256))}, {"UnsignedShort", pk.UnsignedShort(r.Intn(65536))}, {"Int", pk.Int(r.Uint32())},
+		{"Float", pk.Float(1.5)}, {"Double", pk.Double(-2.25)}, {"Angle", pk.Angle(r.Intn(256))}, {"Position", pk.Position{X: r.Intn(100), Y: r.Intn(100), Z: -r.Intn(100)}},
+		{"VarInt", pk.VarInt(r.Uint32() >> uint(r.Intn(32)))}, {"VarLong", pk.VarLong(r.Uint64() >> uint(r.Intn(64)))},
+		{"String", pk.String(strings.Repeat("s", small()))}, {"Identifier", pk.Identifier(strings.Repeat("i", small()))},
+		{"ByteArray", pk.ByteArray(r.Bytes(small()))}, {"PluginMessageData", pk.PluginMessageData(r.Bytes(1 + small()))},
+		{"BitSet", pk.BitSet(make([]int64, small()))}, {"FixedBitSet", pk.NewFixedBitSet(int64(8 * (1 + small())))},
+		{"UUID", pk.UUID{1, 2, 3}}, {"Ary[VarInt]", pk.Array(make([]pk.VarInt, small()))}, {"Ary[ByteArray]", pk.Array(make([]pk.ByteArray, small()))},
+		{"Option.absent", pk.Option[pk.ByteArray, *pk.ByteArray]{Has: false}}, {"Option.present", pk.Option[pk.ByteArray, *pk.ByteArray]{Has: true, Val: r.Bytes(small())}},
+		{"OptionEncoder", pk.OptionEncoder[pk.String]{Has: true, Val: pk.String(strings.Repeat("o", small()))}},
+		{"Opt", pk.Opt{Has: func() bool { return true }, Field: pk.ByteArray(r.Bytes(small()))}},
+		{"NBT", pk.NBT(map[string]any{})}, {"NBTField", pk.NBTField{V: tv}},
+	}
+	for _, m := range menu {
+		m := m
+		wcs = append(wcs, &wcase{name: "field." + m.name + ".WriteTo", run: func(w io.Writer) error { _, err := m.f.WriteTo(w); return err }})
+	}
+	var tup pk.Tuple
+	tupName := ""
+	for k := r.Range(2, 6); k > 0; k-- {
+		m := menu[r.Intn(len(menu))]
+		tup = append(tup, m.f)
+		tupName += m.name + ","
+	}
+	wcs = append(wcs, &wcase{name: "Tuple.WriteTo", note: tupName, run: func(w io.Writer) error { _, err := tup.WriteTo(w); return err }})
 	// RCON
 	payload := r.Bytes(r.Intn(60))
 	frame := binary.LittleEndian.AppendUint32(nil, uint32(10+len(payload)))
